@@ -207,7 +207,7 @@ pub(crate) fn run(seed: u64, n: u64, out: &mut Out) {
             // (the 3 s timer has not recovered them yet); a late or duplicate answer (start not continuous) is likely then
             let window = rng.chance(1, 5);
             if window { if let Ok(mut g) = net.peers.matched_blocks().write() { g.clear(); } }
-            match if window && rng.chance(1, 2) { 2 } else { rng.below(16) } {
+            match if window && rng.chance(1, 2) { 2 } else if delayed_world && rng.chance(2, 3) { 99 } else { rng.below(20) } {
                 0 if !filters.is_empty() => { what = "tampered-filter"; let j = rng.below(filters.len() as u64) as usize; let mut b = filters[j].raw_data().to_vec(); if b.is_empty() { b.push(1); } else { let k = rng.below(b.len() as u64) as usize; b[k] ^= 1 << rng.below(8); } filters[j] = ckb_types::bytes::Bytes::from(b).pack(); }
                 1 if !filters.is_empty() => { what = "foreign-filter"; let j = rng.below(filters.len() as u64) as usize; filters[j] = bc.filters[rng.range(1, tip) as usize].clone(); }
                 2 => { what = "shifted-start"; start = match rng.below(3) { 0 => start + 1, 1 => start.saturating_sub(1), _ => rng.range(0, tip + 3) }; }
